@@ -23,7 +23,32 @@ static bool hint_enumeration(const zp::Zone& z, zp::Handle& h, bool full, vf::Ca
   int64_t prime_t = 0; i128 probe = 0; const char* what = "";
   vf::CurrentScope scope([&]() { vf::Case c; c.set("zone", z.label); c.set("prime_t", prime_t); c.set("probe", probe); c.set("what", what); return c; });
   const size_t step = (full || a.size() < 200) ? 1 : a.size() / 150;
+  // a second copy of the same bytes on which lookup() is never called: its transition queries cannot be influenced
+  // by any remembered lookup position
+  const std::string ref_name = zp::register_bytes(z.bytes, "c14ref");
+  zp::Handle href = zp::open_private(ref_name);
+  zp::unregister(ref_name);
   for (size_t i = 0; i + 1 < a.size(); i += step) {
+    if (href.ok) {
+      // transition queries right after a lookup that left its hint on interval i
+      for (int64_t q : {a[i], a[i + 1], a[i] + 1, a[i + 1] - 1}) {
+        for (int64_t primer : {a[i], a[i] + (a[i + 1] - a[i]) / 2}) {
+          cctz::time_zone::civil_transition t1, t2;
+          (void)h.lookup(primer);
+          const bool n1 = h.next(q, &t1), n2 = href.next(q, &t2);
+          (void)h.lookup(primer);
+          cctz::time_zone::civil_transition p1, p2;
+          const bool r1 = h.prev(q, &p1), r2 = href.prev(q, &p2);
+          EV->eval(2);
+          prime_t = primer; probe = q; what = "next/prev_transition after a priming lookup";
+          if (n1 != n2 || (n1 && (t1.from != t2.from || t1.to != t2.to)) || r1 != r2 || (r1 && (p1.from != p2.from || p1.to != p2.to))) {
+            fc->set("prime_t", primer); fc->set("t", q); fc->set("what", what);
+            *why = "[after lookup(" + vf::i64_str(primer) + ")] next/prev_transition(" + vf::i64_str(q) + ") differs from the answer of a copy that was never looked up";
+            return false;
+          }
+        }
+      }
+    }
     // an instant strictly inside table interval [a_i, a_{i+1})
     prime_t = a[i] + (a[i + 1] - a[i]) / 2;
     const cctz::civil_second prime_cs = h.lookup(prime_t).cs;
@@ -85,6 +110,7 @@ static bool sequences(const zp::Zone& z, zp::Handle& h, vf::Case* fc, std::strin
     op.arg = refcal::clamp64(base);
     if (op.kind == 1 || op.kind == 5) op.arg = base + z.model.type_at(base).utoff + *rc::gen::element<int64_t>(0, 0, -1, 1, -3600, 3600);
     ops.push_back(op);
+    if (op.kind == 0 && *vf::range<int>(0, 2) == 0) { Op q; q.kind = *rc::gen::element(2, 3); q.arg = op.arg; ops.push_back(q); }  // lookup(t) then next/prev(t)
   }
   // copy B: a fresh load of the same bytes (fresh hints), asked in reverse order
   const std::string name_b = zp::register_bytes(z.bytes, "c14b");
